@@ -2,4 +2,4 @@
 # keep_wave.sh <pid> <tag> <i> [note] : stage /tmp/mut-<pid>-<tag>/out/<i> as <pid><tag>-<i> and keep it if its verify log shows it confirmed and caught
 P=$1; T=$2; I=$3; NOTE=${4:-}
 mkdir -p /tmp/muts; rm -rf /tmp/muts/$P$T-$I; cp -r /tmp/mut-$P-$T/out/$I /tmp/muts/$P$T-$I
-python3 /verif/tools/keep_from_log.py $P$T-$I /tmp/mut-$P-$T/verify_$I.log "$NOTE"
+python3 /verif/tools/keep_from_log.py $P$T-$I /tmp/mut-$P-$T/verify_$I${LOGSFX:-}.log "$NOTE"
